@@ -139,6 +139,7 @@ def simulate(num, maxtok=30, maxnl=0, seed=0, sigma=None, start='Program',
 # the model says about the sentence
 LAYER2 = {
     'slash': ('SlashImpl', ['SlashDecisionsOK'], 'EmitSlash'),
+    'asi': ('AsiImpl', ['AsiOK'], 'EmitAsi'),
 }
 
 
